@@ -27,7 +27,7 @@ Definition var_ok_f (vars : list (string * vrec)) (kv : string * vrec) : bool :=
       (n =? fst kv)%string && (d =? "")%string && keys_nodupb (map fst ivars) && keys_sortedb (map fst ivars)
       && match ivars with [] => negb i && negb g && negb st | _ => true end
       && forallb (fun iv => plain_name (fst iv) && loadable_in (snd iv) && no_inst (snd iv)) ivars
-  | mkV (Some v) _ true => snap_safe v && no_inst v       (* constants are written before the flavors: no instance *)
+  | mkV (Some v) _ true => snap_safe v && no_inst v       (* constants without instances: a restriction of the PROOF since repo_fixes/C19-33 (const_inst_history_restored), not of the code *)
   | mkV (Some v) _ false => snap_safe v && insts_ok vars v (* no flavor OBJECT inside another value: snap_safe, not _x *)
   | mkV None d c => (d =? "")%string && negb c
   end.
@@ -50,16 +50,25 @@ Definition keys_nodup_b (s : session) : bool := keys_nodupb (map fst (s_vars s))
 Lemma flavor_session_refuted :
   forallb (fun s => keys_nodup_b s && sess_ok_x s && negb (sess_ok_f s) && negb (meets_spec s)
                     && negb (session_eqb (canon (reload_session s)) (canon s)))
-          [wit_const_inst; wit_flavor_doc; wit_unsorted; wit_empty_option; wit_stale_flavor] = true.
+          [wit_flavor_doc; wit_unsorted; wit_empty_option; wit_stale_flavor] = true.
 Proof. vm_compute. reflexivity. Qed.
 
-(* the first of them is built by a history the interpreter of the model accepts *)
-Lemma const_inst_history_refuted :
+(* a constant whose value is an instance: until repo_fixes/C19-33 the constants section was written before the flavors
+   section and this state was the first witness above (the defconstant failed on load: flavor blk not found). With the
+   constants after the flavors the state is rebuilt: every form loads, the same session, the same snapshot, and the
+   defflavor is written before the defconstant. It is built by a history the interpreter of the model accepts. (The
+   guard sess_ok_f of the theorem below still excludes it -- constants without instances -- so for constants holding
+   instances the round trip is evaluated per run inside sess_ok_x, not proved for all of them.) *)
+Lemma const_inst_history_restored :
   run empty_session
     [ L [Sym "defflavor"; Sym "blk"; L [Sym "sa"; L [Sym "sb"; Fix 2]]; Nil; Sym ":gettable-instance-variables";
          Sym ":settable-instance-variables"; Sym ":inittable-instance-variables"];
-      L [Sym "defconstant"; Sym "+ci+"; L [Sym "make-instance"; quote (Sym "blk"); Sym ":sa"; Fix 1]] ] = Ok wit_const_inst.
-Proof. vm_compute. reflexivity. Qed.
+      L [Sym "defconstant"; Sym "+ci+"; L [Sym "make-instance"; quote (Sym "blk"); Sym ":sa"; Fix 1]] ] = Ok wit_const_inst
+  /\ keys_nodup_b wit_const_inst = true /\ sess_ok_x wit_const_inst = true /\ meets_spec wit_const_inst = true
+  /\ session_eqb (canon (reload_session wit_const_inst)) (canon wit_const_inst) = true
+  /\ (match snapshot wit_const_inst with
+      | L (Sym "defflavor" :: _) :: L (Sym "defconstant" :: _) :: _ => true | _ => false end) = true.
+Proof. repeat split; vm_compute; reflexivity. Qed.
 
 (* ---- small facts ---- *)
 Lemma sort_sorted : forall {A} (l : list (string * A)), keys_sortedb (map fst l) = true -> sort_by l = l.
@@ -453,42 +462,44 @@ Proof.
   assert (Hsvnd : NoDup (map fst sv)) by (apply sort_nodup; exact Hnv).
   assert (Hofnd : NoDup (map fst of)) by (eapply Permutation_NoDup; [apply Permutation_map; symmetry; exact Hpof|exact Hnf]).
   set (C := consts_of sv). set (F := filter is_flv sv). set (P := filter is_plain sv).
-  assert (Hp3 : Permutation (C ++ F ++ P) sv) by apply part3_perm.
-  assert (Hnd3 : NoDup (map fst (C ++ F ++ P))).
+  assert (Hp3 : Permutation (F ++ C ++ P) sv).
+  { etransitivity; [apply Permutation_app_swap_app|apply part3_perm]. }
+  assert (Hnd3 : NoDup (map fst (F ++ C ++ P))).
   { eapply Permutation_NoDup; [apply Permutation_map; symmetry; exact Hp3|exact Hsvnd]. }
-  assert (HndCF : NoDup (map fst (C ++ F))).
+  assert (HndFC : NoDup (map fst (F ++ C))).
   { rewrite app_assoc, map_app in Hnd3. apply nodup_app_left in Hnd3. exact Hnd3. }
-  assert (HCFin : forall kv, In kv (C ++ F) -> In kv sv).
+  assert (HFCin : forall kv, In kv (F ++ C) -> In kv sv).
   { intros kv Hin. apply in_app_or in Hin. destruct Hin as [Hin|Hin]; apply filter_In in Hin; tauto. }
-  assert (HfreeC : names_free C).
-  { apply (names_free_ok allv). intros kv Hin. apply Hall, Hsvin, HCFin. apply in_or_app. left. exact Hin. }
-  assert (HfreeCF : names_free (C ++ F)).
-  { apply (names_free_ok allv). intros kv Hin. apply Hall, Hsvin, HCFin. exact Hin. }
-  assert (HflCF : forall n r, In (n, r) sv -> is_flv (n, r) = true -> alookup (C ++ F) n = Some r).
-  { intros n r Hin Hf. apply In_alookup; [exact HndCF|]. apply in_or_app. right. apply filter_In. split; assumption. }
-  assert (Hload : exists oks, load_forms empty_session (snapshot s) = (mkS ((C ++ F) ++ P) of, oks)
+  assert (HfreeF : names_free F).
+  { apply (names_free_ok allv). intros kv Hin. apply Hall, Hsvin, HFCin. apply in_or_app. left. exact Hin. }
+  assert (HfreeFC : names_free (F ++ C)).
+  { apply (names_free_ok allv). intros kv Hin. apply Hall, Hsvin, HFCin. exact Hin. }
+  assert (HflFC : forall n r, In (n, r) sv -> is_flv (n, r) = true -> alookup (F ++ C) n = Some r).
+  { intros n r Hin Hf. apply In_alookup; [exact HndFC|]. apply in_or_app. left. apply filter_In. split; assumption. }
+  assert (Hload : exists oks, load_forms empty_session (snapshot s) = (mkS ((F ++ C) ++ P) of, oks)
                               /\ forallb (fun b => b) oks = true).
-  { unfold snapshot. fold allv sv sf of. rewrite (const_forms_filter sv). fold C.
+  { unfold snapshot. fold allv sv sf of.
     rewrite load_forms_app. unfold empty_session.
-    rewrite (load_consts C [] [] (consts_var_ok allv sv Hsvok)); [|
-      rewrite map_app in HndCF; apply nodup_app_left in HndCF; exact HndCF |intros k _ []|intros k []].
-    cbn [app]. assert (HCC : consts_of C = C) by (unfold C, consts_of; apply filter_idem). rewrite HCC.
+    rewrite (load_flavors allv sv [] [] Hsvok Hsvnd); [|intros k _ []|intros k []]. cbn [app]. fold F.
+    rewrite (const_forms_filter sv). fold C.
     rewrite load_forms_app.
-    rewrite (load_flavors allv sv C [] Hsvok Hsvnd); [|apply keys_disjoint; exact HndCF|exact HfreeC]. fold F.
+    rewrite (load_consts C F [] (consts_var_ok allv sv Hsvok)); [|
+      rewrite map_app in HndFC; apply (nodup_app_left (map fst C) (map fst F)); eapply Permutation_NoDup; [apply Permutation_app_comm|exact HndFC] |apply keys_disjoint; exact HndFC|exact HfreeF].
+    assert (HCC : consts_of C = C) by (unfold C, consts_of; apply filter_idem). rewrite HCC.
     rewrite load_forms_app.
-    rewrite (load_vars_f allv sv (C ++ F) [] Hall Hsvok Hsvnd).
+    rewrite (load_vars_f allv sv (F ++ C) [] Hall Hsvok Hsvnd).
     - fold P. rewrite (load_funs (s_funs s) of _ [] Hofok Hofnd); [|intros k _ []]. eexists. split; [reflexivity|].
       rewrite !forallb_app, !repeat_true_all. reflexivity.
     - apply keys_disjoint. rewrite <- app_assoc. exact Hnd3.
-    - exact HflCF.
-    - intros f r Hl Hf. apply HflCF; [|exact Hf]. eapply Permutation_in; [symmetry; apply sort_perm|]. apply alookup_In. exact Hl.
-    - exact HfreeCF. }
+    - exact HflFC.
+    - intros f r Hl Hf. apply HflFC; [|exact Hf]. eapply Permutation_in; [symmetry; apply sort_perm|]. apply alookup_In. exact Hl.
+    - exact HfreeFC. }
   destruct Hload as (oks & Hload & Hoks).
-  assert (Hrs : reload_session s = mkS ((C ++ F) ++ P) of).
+  assert (Hrs : reload_session s = mkS ((F ++ C) ++ P) of).
   { unfold reload_session, load. rewrite Hload. reflexivity. }
-  assert (Hperm : Permutation ((C ++ F) ++ P) allv).
+  assert (Hperm : Permutation ((F ++ C) ++ P) allv).
   { rewrite <- app_assoc. etransitivity; [exact Hp3|apply sort_perm]. }
-  assert (Hcv : sort_by ((C ++ F) ++ P) = sort_by allv).
+  assert (Hcv : sort_by ((F ++ C) ++ P) = sort_by allv).
   { apply sort_canonical; [exact Hperm|]. eapply Permutation_NoDup; [|exact Hnv]. apply Permutation_map. symmetry. exact Hperm. }
   assert (Hcf : sort_by of = sort_by (s_funs s)).
   { apply sort_canonical; [exact Hpof|exact Hofnd]. }
